@@ -926,3 +926,21 @@ impl ModuleSet {
     }
 }
 
+
+//------------ Verification hooks (C30) --------------------------------------
+//
+// Inherent methods on the public `Config` so that they can be reached from
+// outside the crate although this module is private.
+
+#[cfg(routinator_verif)]
+impl Config {
+    /// Exposes `WorkingDir::module_path` and `WorkingDir::uri_path` for the
+    /// working directory derived from this config (nothing is created).
+    pub fn verif_rsync_paths(&self, uri: &uri::Rsync) -> (PathBuf, PathBuf) {
+        let dir = WorkingDir::new(self.cache_dir.join("rsync"));
+        (
+            dir.module_path(Module::from_uri(uri).as_ref()),
+            dir.uri_path(uri)
+        )
+    }
+}
